@@ -6,6 +6,6 @@ CONSTANTS
   MaxCrashes = 0
   MaxRuns = 2
   Tolerated <- NoTol
-  Gen = TRUE
+  Gen = "full"
 INVARIANTS EmitScn
 CHECK_DEADLOCK FALSE
